@@ -302,8 +302,12 @@ def serialise(ctx, how, shape):
     ncell = 1
     for n in shape:
         ncell *= n
-    a = ctx.mk(dims, labels, ctx.cells('f', ncell, 'v'), lkinds=['i', 'U'][:nd])
-    if how == 'to_json':
+    a = ctx.mk(dims, labels, ctx.cells('f', ncell, 'v', nan=how.startswith('to_MaskedArray')), lkinds=['i', 'U'][:nd])
+    if how == 'to_MaskedArray':
+        f = lambda: a.to_MaskedArray()
+    elif how == 'to_MaskedArray-nocopy':
+        f = lambda: a.to_MaskedArray(copy=False)
+    elif how == 'to_json':
         f = lambda: a.to_json()
     elif how == 'to_json-indent':
         f = lambda: a.to_json(indent=2)
@@ -353,7 +357,7 @@ def templates():
                 if tsize == 2 and op in ('reshape', 'squeeze', 'repeat'):
                     continue
                 add('derived-%s-%s-t%d' % (src, op, tsize), 'derived_operand', cost=0.4, src=src, op=op, tsize=tsize)
-    for how in ('to_json', 'to_json-indent', 'to_jsondict', 'roundtrip', 'repr', 'str-summary', 'to_list', 'copy', 'in-dataset-to_dict'):
+    for how in ('to_json', 'to_json-indent', 'to_jsondict', 'roundtrip', 'repr', 'str-summary', 'to_list', 'copy', 'in-dataset-to_dict', 'to_MaskedArray', 'to_MaskedArray-nocopy'):
         for shape in ([2], [2, 2]):
             add('serialise-%s-%s' % (how, 'x'.join(map(str, shape))), 'serialise', cost=0.3, how=how, shape=shape)
     for ctor in ('setitem', 'ctor', 'kwargs'):
